@@ -81,10 +81,23 @@ class Scenario:
             glb[f"B{i}"] = c
         self.glb = glb
         self.fns = []
+        # call shapes: some methods take an optional second positional, some an optional keyword-only argument, so
+        # that an entry point generated from a partial or stale argument analysis is visibly different
+        self.shapes = rng.random() < 0.5
+        self.extra = []
         for i in range(k):
             r = rng.random()
             body = f"return ('m', {i})" if r < 0.4 else f"return ('m', {i}, recurse)" if r < 0.6 else f"return ('m', {i}, call_next(x))"
-            self.fns.append(mk_fn(f"m{i}", body, f"x: B{i}", glb))
+            params = f"x: B{i}"
+            ex = None
+            if self.shapes:
+                ex = rng.choice([None, "y", "k"])
+                if ex == "y":
+                    params += ", y: object = 0"
+                elif ex == "k":
+                    params += ", *, k: object = 1"
+            self.extra.append(ex)
+            self.fns.append(mk_fn(f"m{i}", body, params, glb))
         flag = self.raise_flag
 
         def pred(cls):
@@ -122,7 +135,14 @@ class Scenario:
         return ov
 
     def probes(self):
-        return [c() for c in self.classes]
+        ps = [c() for c in self.classes]
+        if self.shapes:
+            for i, ex in enumerate(self.extra):
+                if ex == "y":
+                    ps.append(("call", (self.classes[i](), 7), {}))
+                elif ex == "k":
+                    ps.append(("call", (self.classes[i](),), {"k": 3}))
+        return ps
 
 
 def canon(r):
@@ -131,9 +151,20 @@ def canon(r):
     return "<callable>" if callable(r) else r
 
 
+def invoke(f, arg):
+    """call f with a probe: an instance, or ("call", args, kwargs)"""
+    if isinstance(arg, tuple) and arg and arg[0] == "call":
+        return f(*arg[1], **arg[2])
+    return f(arg)
+
+
 def call(ov, arg, route="obj"):
     try:
-        r = (ov if route == "obj" or not hasattr(ov, "dispatch") else ov.dispatch)(arg)
+        f = ov if route == "obj" or not hasattr(ov, "dispatch") else ov.dispatch
+        if isinstance(arg, tuple) and arg and arg[0] == "call":
+            r = f(*arg[1], **arg[2])
+        else:
+            r = f(arg)
         return ("ok", canon(r))
     except Injected:
         return ("injected",)
@@ -158,12 +189,20 @@ def reference(sc, tags, probes, hook_raises):
         sc.raise_flag[0] = False
 
 
+def binding_error(a):
+    """the arity / keyword TypeError of a generated entry point: an answer of the function, not a build failure"""
+    return a[0] == "error" and a[1] == "TypeError" and any(m in a[2] for m in ("positional argument", "keyword argument", "keyword-only", "multiple values"))
+
+
 def cfg_error(a):
-    """an error that is not a dispatch answer ("No method" / "Ambiguous resolution")"""
-    return is_error(a) and "No method" not in str(a) and "Ambiguous" not in str(a)
+    """an error that is neither a dispatch answer ("No method" / "Ambiguous resolution") nor the entry point's own
+    arity answer"""
+    return is_error(a) and "No method" not in str(a) and "Ambiguous" not in str(a) and not binding_error(a)
 
 
 def same(a, b):
+    if is_error(a) and is_error(b) and binding_error(a) != binding_error(b):
+        return False
     if is_error(a) and is_error(b):
         # error kinds must agree on "no method" vs other errors
         return ("No method" in str(a)) == ("No method" in str(b)) or a[1:2] == b[1:2]
